@@ -273,6 +273,10 @@ func cmdCheck(args []string) {
 				}
 			}
 			ro := Replay(ctx, or.Func, or.Obl, secs)
+			if os.Getenv("GOCV_DEBUG") != "" && ro.Status == "error" {
+				fmt.Println(ro.TestSrc)
+				fmt.Println(ro.Output)
+			}
 			rf := replayFile{Property: *prop, Obligation: name, Kind: or.Obl.Kind, Description: or.Obl.Descr, Position: or.Obl.Pos.String(),
 				Solver: or.Res.Solver, SolverOut: firstLines(or.Res.Raw, 40), Model: or.Res.Model, Replay: ro.Status, ReplayInfo: ro.Detail,
 				TestSrc: ro.TestSrc, TestOutput: firstLines(ro.Output, 60), Notes: or.Func.VC.notes}
